@@ -457,7 +457,8 @@ Section All.
       { eexists. split; [reflexivity|]. intros q Hq. inversion Hq. apply bd_0. }
       destruct (buf b) as [|c t] eqn:Eb; [exact H0|]. destruct (u_is_whitespace U c); [|exact H0].
       destruct (next_word_pos_ok U b 0 AtStart WBig 1) as [o [Ho Hq]]; [rewrite Eb; apply bd_0|].
-      exists o. split; [exact Ho|]. intros q Hq'. rewrite <- Eb. apply (Hq q Hq').
+      rewrite Ho. destruct o as [q0|]; [|eexists; split; [reflexivity|]; intros q Hq'; inversion Hq'; apply bd_0].
+      exists (Some q0). split; [reflexivity|]. intros q Hq'. rewrite <- Eb. apply (Hq q Hq').
     Qed.
   End Words2.
 
